@@ -155,6 +155,8 @@ class Run(Partial):
                 new.append((sig, case, msg))
         for sig, k in hit:
             print(f"KNOWN-FINDING: property={self.pid} {k.get('what', sig)} [key={sig}]")
+        import shutil
+        shutil.rmtree(os.path.join(REPLAY_DIR, self.pid), ignore_errors=True)  # replays of earlier runs are stale
         paths = []
         for sig, case, msg in new:
             paths.append(write_replay(self.pid, sig, case, msg))
